@@ -18,6 +18,10 @@ gradients are the same expression.  inverse(V) of the eigenvector matrix stays V
 
 No contract rows (V diag(e) V^T = S, ...) are recorded in this mode: C12 compares two derivatives of the same DAG
 and never needs them.
+
+Also here (same opt-in flag): the in-place division of a tensor by a torchtree Parameter object (GMRF weights).
+Importing this module re-registers the handlers 'linalg_eigh', 'inverse', 'linalg_inv' and the in-place division
+names with wrappers that fall through to the generic handlers unless the active trace has uf_stubs = True.
 """
 from __future__ import annotations
 
@@ -122,3 +126,21 @@ def h_inverse(func, args, kwargs):
                   torch.stack([x._ids for x in outs]).reshape(bshape + (n, n)))
     r._rg = bool(A._rg) and torch.is_grad_enabled()
     return r
+
+
+# ------------------------------------------------------------------ torchtree Parameter objects as operands
+# GMRF._call divides a tensor in place by `self.weights`, which from_json makes a torchtree Parameter (not a tensor); real torch
+# resolves that through AbstractParameter.__torch_function__ (every argument with a `.tensor` is replaced by it).  SymTensor's
+# own __torch_function__ is consulted first, so the same unwrapping is done here for the in-place division (opt-in traces only).
+def _unwrap_parameters(h):
+    def wrapped(func, args, kwargs):
+        if enabled():
+            args = tuple(a.tensor if (hasattr(a, 'tensor') and not isinstance(a, torch.Tensor)) else a for a in args)
+        return h(func, args, kwargs)
+
+    return wrapped
+
+
+for _n in ('__itruediv__', 'div_', 'true_divide_', 'divide_'):
+    if _n in HANDLERS:
+        HANDLERS[_n] = _unwrap_parameters(HANDLERS[_n])
